@@ -156,8 +156,13 @@ func (k Keeper) LockVoterPower(
 	voter sdk.AccAddress,
 	signals []types.Signal,
 ) error {
-	sumPower := types.SumPower(signals)
-	if err := k.restakeKeeper.SetLockedPower(ctx, voter, types.ModuleName, math.NewInt(sumPower)); err != nil {
+	// sum with arbitrary precision; an int64 sum of individually valid powers can wrap around
+	// and would let a voter lock (and signal) more power than it has.
+	sumPower := math.ZeroInt()
+	for _, signal := range signals {
+		sumPower = sumPower.Add(math.NewInt(signal.Power))
+	}
+	if err := k.restakeKeeper.SetLockedPower(ctx, voter, types.ModuleName, sumPower); err != nil {
 		return err
 	}
 
